@@ -267,6 +267,32 @@ func EnumCase(r *rand.Rand, name string, o EnumOpts) (*Case, string) {
 			// nested occurrences go through the declared method ME, so the method level is enough
 		}
 	}
+	if mustFail == "" && unexported == "" && sk == tk && r.Intn(6) == 0 {
+		// method-level `enum no`: the enum-typed field of the method's own struct is converted like a plain named basic
+		// (value preserved), although enum handling stays enabled on the converter
+		sd := &Decl{Pkg: ea, Name: "Plain", Under: Struct(F("K", Named(KA)), F("N", Basic("int")))}
+		td := &Decl{Pkg: eb, Name: "PlainT", Under: Struct(F("K", Named(KB)), F("N", Basic("int")))}
+		ea.Decls = append(ea.Decls, sd)
+		eb.Decls = append(eb.Decls, td)
+		cv := &Converter{Pkg: conv, File: "conv.go", Name: "Converter", Format: o.Format, OutPkgPath: "conv/generated", OutPkgName: "generated", ImplName: "ConverterImpl"}
+		if o.Format == "variables" {
+			cv.OutPkgPath, cv.OutPkgName = "conv", "conv"
+		}
+		cv.Methods = []*Method{{Name: "MP", Params: []Param{{Name: "source", T: Named(sd), Role: "source"}}, Result: Named(td), Lines: []string{"enum no"},
+			Spec: &vref.MethodSpec{Name: "MP", Roles: []string{"source"}, Flags: vref.Flags{EnumOff: true}}}}
+		nv := o.NValues
+		if nv == 0 {
+			nv = 40
+		}
+		cv.Spec = &vref.Spec{Seed: o.Seed, NValues: nv, Monitors: []string{"value"}}
+		c.Convs = []*Converter{cv}
+		c.Patterns = []string{"./conv"}
+		c.Feature("names", "enum-no-on-method")
+		c.Feature("kinds", sk+"->"+tk)
+		c.Feature("unknown", "")
+		c.Feature("format", o.Format)
+		return c, ""
+	}
 	cv := &Converter{Pkg: conv, File: "conv.go", Name: "Converter", Format: o.Format, Lines: convLines, OutPkgPath: "conv/generated", OutPkgName: "generated", ImplName: "ConverterImpl"}
 	if o.Format == "variables" {
 		cv.OutPkgPath, cv.OutPkgName = "conv", "conv"
